@@ -65,6 +65,24 @@ class InterpolateBetweenRestarts(ConvergenceController):
 
         self.status.skip_interpolation = False
 
+    def post_step_processing(self, controller, step, MS=None, **kwargs):
+        """
+        If no step of the block is restarted after all (e.g. because the retry budget is used up and the run moves on), drop
+        the values that were prepared for a restart. Otherwise they would overwrite the start value of the next step.
+
+        Args:
+            controller (pySDC.Controller): The controller
+            step (pySDC.Step.step): The current step
+            MS (list): The active steps of the block
+
+        Returns:
+            None
+        """
+        if not any(S.status.restart for S in (MS if MS is not None else [step])):
+            self.status.perform_interpolation = False
+            self.status.u_inter = []
+            self.status.f_inter = []
+
     def post_iteration_processing(self, controller, step, **kwargs):
         """
         Interpolate the solution and right hand sides and store them in the sweeper, where they will be distributed
